@@ -321,6 +321,9 @@ impl World {
     }
 
     pub fn advance(&mut self, secs: u64) {
+        // block time is nanoseconds in a u64: the simulated clock never passes the year 2286
+        let horizon: u64 = 10_000_000_000;
+        let secs = secs.min(horizon.saturating_sub(self.now_s())).max(1);
         self.st.now_ns += secs * 1_000_000_000;
         self.st.height += 1 + secs / 6;
         self.st.tx_index = 0;
